@@ -1177,6 +1177,11 @@ def _obs(C, rec):
     ret = "None" if "ret" not in rec else "(Some %s)" % _zl(rec["ret"])
     return "(%s, %s, %s)" % (_st(C, m), ret, g)
 
+def translate(repo, gen_dir):
+    """regenerate the two source tables (fail closed: exceptions propagate to check.py)"""
+    from translate import c03_dispatch, c03_metareset
+    return [c03_dispatch.translate(repo, gen_dir), c03_metareset.translate(repo, gen_dir)]
+
 def emit_case(case, out):
     if "exc" in out:
         return "false"
